@@ -13,6 +13,7 @@ double __verif_nondet_double(double lo, double hi);
 int __verif_choice(int n);                           // value in [0, n): enumerated by the driver (one job per value)
 void __verif_assume(bool);
 void __verif_assert(bool, const char* what);
+void __verif_assert_env(bool, const char* what);   // claim about a value handed to an environment model (no-op natively: the real library is linked there)
 void __verif_cover(const char* label);
 void __verif_observe(long long v);
 void __verif_observe_f(double v);
